@@ -36,6 +36,9 @@ ERR_TABLE = [
     (r'^if you want to impl `Into<', 'E_into_no_impl'),
     (r'^multiple fields are set for `Into<', 'E_into_multi'),
     (r'^the rank `.*` is repeatedly used', 'E_rank_reuse'),
+    (r'^not an integer$', 'E_not_integer'),
+    (r'^(not a literal|this operation is not allow here)$', 'E_discriminant'),
+    (r'^(number too (large|small) to fit in target type|invalid digit found in string|cannot parse integer from empty string)$', 'E_int_parse'),
 ]
 ERR_TABLE = [(re.compile(a), b) for a, b in ERR_TABLE]
 
